@@ -6,6 +6,7 @@ subject and ANY rule table whose rules can only start with stop characters; kern
 REGENERATED tables (`allCfgs_speedupOk`: shape of the text regex, first characters of every inline rule ⊆ its
 stop set; `allCfgs_blockFirstOk`; the block fast path is single-line).  The byte-equality of the HTML itself is
 not a theorem yet: it is the differential oracle on the implementation (speedup registered last)."""
+import re
 import common, gen, configs, rxconf
 
 LEVEL = "proof"
@@ -19,7 +20,7 @@ EXTRA_LINES = ["Intro", "a | b", "--- | ---", "1 | 2", "--|--", "| x | y |", "|-
                "*[A]: abbr", "A", ">! s", "~sub~", "^sup^", "==m==", "^^i^^", "<b>", "&amp;", "[l](u)", "![i](u)", "`c`", "``c` d``", "word",
                # autolinks and raw constructs after plain text whose first character after "<" is not a letter
                "see www.example.com/docs for", "x www.a.b y", "go WWW.E.COM", "ftp://a.b/c d", "[the documentation ", "](/docs) tail", "![alt ", "](/i.png)", "first", "\t  ", "last", " \t ", "*em ", "* x", "`code ", "` y",
-               "mail <1abc@example.com> now", "x <_me@e.com> y", "a <+tag@e.com>", "see <#h@e.com>", "t <9@a.b> u", "n <.a@b.c>", "b <!-- c --> d", "p <?php ?> q", "z </a> w", "k <!DOCTYPE x> l", "m <![CDATA[x]]> n"]
+               "[*docs* ](/u)", "![`x` ](/i.png)", "[**b** ][foo]", "[`c`\t](/u) x", "*`a` *", "[<b> ](/u)", "[x ![i](/p) ](/u)", "this is ++new++ text", "a ||b|| c", "x %%y%% z", "see ::w:: and @@v@@", "mail <1abc@example.com> now", "x <_me@e.com> y", "a <+tag@e.com>", "see <#h@e.com>", "t <9@a.b> u", "n <.a@b.c>", "b <!-- c --> d", "p <?php ?> q", "z </a> w", "k <!DOCTYPE x> l", "m <![CDATA[x]]> n"]
 
 
 STOPS = list("\\><![_*`~^$=") + ["http:", "https:", " \n", ".", "-", "&", ";", "#"]
@@ -74,8 +75,14 @@ def oracle(ctx, ds, n_cfg):
     mds = []
     for pl, hw, esc in pairs:
         a = mistune.create_markdown(escape=esc, hard_wrap=hw, plugins=pl)
-        b = mistune.create_markdown(escape=esc, hard_wrap=hw, plugins=pl + ["speedup"])
-        mds.append((pl, hw, esc, a, b))
+        # speedup is added at a random position of the list; the claim excludes the two orders in which speedup, registered BEFORE url / spoiler,
+        # shadows their start characters on the unchanged tree (DESIGN §7 C09): there it is placed after them
+        k = ctx.rng.randint(0, len(pl)) if ctx.rng.random() < 0.5 else len(pl)
+        late = [i for i, p in enumerate(pl) if p in ("url", "spoiler")]
+        if late:
+            k = max(k, late[-1] + 1)
+        b = mistune.create_markdown(escape=esc, hard_wrap=hw, plugins=pl[:k] + ["speedup"] + pl[k:])
+        mds.append((pl[:k] + ["<speedup>"] + pl[k:] if k < len(pl) else pl, hw, esc, a, b))
     mds.append((["strikethrough", "footnotes", "table"], False, False, mistune.create_markdown(escape=False, plugins=["strikethrough", "footnotes", "table"]), mistune.html))
     for d in ds:
         for pl, hw, esc, a, b in ctx.rng.sample(mds, 3) + [mds[0], mds[-1]]:
@@ -96,11 +103,48 @@ def oracle(ctx, ds, n_cfg):
                 import re as _re
                 keys = _re.findall(r"^ {0,3}\*\[([^\]\n]+)\]:", d, _re.M)
                 # the known finding: the LONGER key is defined before a key that is its prefix (definition order = alternation order)
+                pl = [p for p in pl if p != "<speedup>"]
                 prefix_keys = "abbr" in pl and any(a != b and b.startswith(a) and keys.index(b) < keys.index(a) for a in keys for b in keys)
                 kind = "abbr-prefix-key" if prefix_keys else "block" if (isinstance(x, str) and isinstance(y, str) and x.count("<p>") != y.count("<p>")) or "<table" in str(x) + str(y) or "<dl" in str(x) + str(y) else "inline"
                 ctx.fail("speedup-differs:%s:%s" % (kind, "hardwrap" if hw else "std"),
                          "plugins %s hard_wrap=%s: output differs with speedup for %r" % (pl, hw, d),
                          {"plugins": pl, "hard_wrap": hw, "escape": esc, "doc": d, "without": x, "with": y})
+    return n
+
+
+def sampler_part(ctx, n_per_rule):
+    """Strings drawn from the regular expressions of every inline and block rule of every plugin (harness/rxsample.py), placed after ordinary words (where the speedup text
+    rule is in the middle of a chunk) and at line starts after a plain line (where its paragraph rule is collecting lines): with and without speedup.  This is the directed
+    search for a rule whose start the fast paths do not stop at (the obligation `allCfgs_speedupOk` is the proof side of the same thing)."""
+    import mistune, rxsample
+    n = 0
+    for P in [None] + [p for p in configs.PLUGINS if p != "speedup"]:
+        pl = [P] if P else []
+        try:
+            a = mistune.create_markdown(plugins=pl or None)
+            b = mistune.create_markdown(plugins=pl + ["speedup"])
+        except Exception:
+            continue
+        pats = [(k, v, "inline") for k, v in a.inline.specification.items()] + [(k, v, "block") for k, v in a.block.specification.items()]
+        for rn, pat, side in pats:
+            if P and rn in ("text", "paragraph"):
+                continue
+            for smp in rxsample.samples(pat, ctx.rng, n_per_rule, re.M):
+                if "\n\n" in smp.strip("\n"):
+                    continue
+                forms = ["this is %s text\n", "word%s\n", "Intro words\n%s\nmore words\n", "x %s\n"] if side == "inline" else ["Intro words\n%s\nmore\n", "Intro\n%s", "a b c\n\n%s\nd\n"]
+                doc = ctx.rng.choice(forms) % smp
+                n += 1
+                try:
+                    x, y = a(doc), b(doc)
+                except Exception:
+                    continue
+                if x != y:
+                    keys = re.findall(r"^ {0,3}\*\[([^\]\n]+)\]:", doc, re.M)
+                    if P == "abbr" and any(k1 != k2 and k2.startswith(k1) and keys.index(k2) < keys.index(k1) for k1 in keys for k2 in keys):
+                        continue
+                    ctx.fail("speedup-differs:%s:std" % ("inline" if side == "inline" else "block"), "plugins %s: output differs with speedup for %r (a string matching rule %s)" % (pl, doc, rn),
+                             {"plugins": pl, "hard_wrap": False, "escape": True, "doc": doc, "without": x, "with": y})
     return n
 
 
@@ -180,6 +224,7 @@ def run(ctx):
     ds += sweep[: (800 if ctx.quick() else len(sweep))]
     n = oracle(ctx, ds, 8 if ctx.quick() else 60)
     n += api_part(ctx)
+    n += sampler_part(ctx, 25 if ctx.quick() else 300)
     if ctx.broken and not ctx.failures:
         ctx.notes.append("search mode entered: " + "; ".join(ctx.broken)[:300])
         n += oracle(ctx, docs(ctx, 30000), 40)
